@@ -193,6 +193,12 @@ def make_dataset(recipe, winds=True):
         ds["wspd"] = (lead_names, np.round(rng.uniform(3, 25, shp), 2).astype(dtype))
         ds["wdir"] = (lead_names, np.round(rng.uniform(0, 360, shp), 1).astype(dtype))
         ds["dpt"] = (lead_names, np.round(rng.uniform(8, 400, shp), 1).astype(dtype))
+    if recipe.get("scalar_lonlat") and "site" in ds.dims and ds.sizes["site"] == 1 and "lon" in ds.coords:
+        # a single station whose position is given by scalar lon/lat data variables
+        lo, la = float(ds["lon"].values[0]), float(ds["lat"].values[0])
+        ds = ds.drop_vars(["lon", "lat"])
+        ds["lon"] = ((), lo)
+        ds["lat"] = ((), la)
     if recipe.get("scalar_coord"):
         ds = ds.assign_coords(cycle=np.datetime64("2020-01-01T00:00:00", "ns"))
     if recipe.get("exotic_attrs"):
